@@ -90,7 +90,7 @@ impl Check for C03 {
             allow_empty: true,
             allow_arith_args: true,
             allow_distinct: false,
-            big_tables: cfg.tier == Tier::Thorough,
+            big_tables: if cfg.tier == Tier::Thorough { 6 } else { 50 },
             exact_floats: cfg.avoiding("c03.columnar_vs_row.float_f32_precision") || cfg.avoiding("c03.columnar_vs_row.float_where_epsilon"),
         };
         for (sig, f) in [
